@@ -78,7 +78,15 @@ def h_gen_games(w, p):
     return s
 
 
+def h_run_alone(w, p):
+    """run_games on a one-game dict in a never-used process: the batch runner's own
+    words for 'this game alone' (messages, entry layout)."""
+    out = ops.run_games(w, {p["name"]: dec(p["desc"])}, {"sweep_cap": p.get("sweep_cap")})
+    return ops.summarize(out)
+
+
 HANDLERS = {
+    "run_alone": h_run_alone,
     "solve": h_solve,
     "read_file": h_read_file,
     "board": h_board,
